@@ -56,8 +56,7 @@ def what_fn(ev, clause):
 
 def _validate_chunks(c, events, n_chunks):
     """split the events over n_chunks trace files, validate them concurrently, fold the verdicts in (line numbers per chunk)"""
-    size = (len(events) + n_chunks - 1) // n_chunks
-    chunks = [events[i:i + size] for i in range(0, len(events), size)]
+    chunks = [c_ for c_ in (events[i::n_chunks] for i in range(n_chunks)) if c_]   # round-robin: the expensive molecules spread evenly
     paths = []
     for i, ch in enumerate(chunks):
         p = os.path.join(vlib.scratch(), 'taps_chunk_%d.ndjson' % i)
